@@ -112,6 +112,23 @@ class _Renamer(ast.NodeTransformer):
         return n
 
 
+class _BetaReduce(ast.NodeTransformer):
+    """`(lambda a, b: E)(x, y)` -> E[a := x, b := y] for plain positional calls whose arguments are names / constants / attributes (evaluated once anyway)."""
+
+    def visit_Call(self, n):
+        self.generic_visit(n)
+        f = n.func
+        if isinstance(f, ast.Lambda) and not n.keywords and len(n.args) == len(f.args.args) and not f.args.posonlyargs and \
+                not any(isinstance(a, ast.Starred) for a in n.args) and \
+                all(isinstance(a, (ast.Name, ast.Constant)) or (isinstance(a, ast.Attribute) and isinstance(a.value, ast.Name)) or
+                    sum(1 for x in ast.walk(f.body) if isinstance(x, ast.Name) and x.id == p.arg) == 1 for a, p in zip(n.args, f.args.args)):
+            params = [a.arg for a in f.args.args]
+            inner_bound = {x.id for x in ast.walk(f.body) if isinstance(x, ast.Name) and isinstance(x.ctx, ast.Store)}
+            if not (set(params) & inner_bound):
+                return _Renamer(dict(zip(params, n.args))).visit(copy.deepcopy(f.body))
+        return n
+
+
 def _inline_call(fd: ast.FunctionDef, call: ast.Call, drop_first: bool, first_value: ast.expr | None, target: ast.expr | None, uid: int) -> list[ast.stmt]:
     params = [a.arg for a in fd.args.posonlyargs + fd.args.args]
     bound: dict[str, ast.expr] = {}
@@ -149,6 +166,12 @@ def _inline_call(fd: ast.FunctionDef, call: ast.Call, drop_first: bool, first_va
         return isinstance(e, (ast.Name, ast.Constant)) or (isinstance(e, ast.Attribute) and simple(e.value))
 
     for p, v in bound.items():
+        if isinstance(v, ast.Lambda) and p not in stored and not v.args.defaults and not v.args.vararg and not v.args.kwarg and not v.args.kwonlyargs and \
+                all(isinstance(c, ast.Call) and c.func is x for x in (y for st in body for y in ast.walk(st) if isinstance(y, ast.Name) and y.id == p)
+                    for c in [next((c2 for st in body for c2 in ast.walk(st) if isinstance(c2, ast.Call) and c2.func is x), None)]):
+            # a function object that the helper only *calls*: substitute it and beta-reduce the calls below (`func(df)` with func = lambda d: d.head(n))
+            mapping[p] = v
+            continue
         if p in stored or not simple(v):
             nm = f"__h{uid}_{p}"
             pre.append(ast.Assign(targets=[ast.Name(id=nm, ctx=ast.Store())], value=copy.deepcopy(v)))
@@ -159,6 +182,7 @@ def _inline_call(fd: ast.FunctionDef, call: ast.Call, drop_first: bool, first_va
         if nm not in mapping:
             mapping[nm] = f"__h{uid}_{nm}"
     body = [_Renamer(mapping).visit(st) for st in body]  # rename first: the caller's target may be spelled like a local of the helper
+    body = [_BetaReduce().visit(st) for st in body]
     body = _tail_returns_to_assign(body, target)
     return pre + body
 
@@ -187,6 +211,26 @@ def inline_private_helpers(tree: ast.Module, keep: frozenset = frozenset(), pack
     def resolve(call: ast.Call, cls: ast.ClassDef | None, current: ast.FunctionDef):
         f = call.func
         fd, drop, first = None, False, None
+        local = None
+        if isinstance(f, ast.Name) and current is not None:
+            # a closure defined directly in the body of the current function whose free variables are bound at most once there (so that the value seen at the
+            # definition is the value seen at the call)
+            for st_ in current.body:
+                if isinstance(st_, ast.FunctionDef) and st_.name == f.id:
+                    inner_names = {a.arg for a in st_.args.args + st_.args.posonlyargs + st_.args.kwonlyargs} | \
+                        {x.id for x in ast.walk(st_) if isinstance(x, ast.Name) and isinstance(x.ctx, ast.Store)}
+                    free = {x.id for x in ast.walk(st_) if isinstance(x, ast.Name) and isinstance(x.ctx, ast.Load)} - inner_names
+                    stores = {}
+                    for x in ast.walk(current):
+                        if isinstance(x, ast.Name) and isinstance(x.ctx, (ast.Store, ast.Del)) and x.id in free and not any(x is y for y in ast.walk(st_)):
+                            stores[x.id] = stores.get(x.id, 0) + 1
+                    if all(v <= 1 for v in stores.values()) and not st_.decorator_list:
+                        local = st_
+        if local is not None:
+            fd = local
+            if not _inlinable(fd):
+                return None
+            return fd, False, None
         if isinstance(f, ast.Name) and f.id in mod_funcs:
             fd = mod_funcs[f.id]
         elif isinstance(f, ast.Attribute) and isinstance(f.value, ast.Name):
@@ -265,7 +309,7 @@ def inline_private_helpers(tree: ast.Module, keep: frozenset = frozenset(), pack
                     bind_count[t.id] = bind_count.get(t.id, 0) + 1
     for st in tree.body:
         if isinstance(st, ast.Assign) and len(st.targets) == 1 and isinstance(st.targets[0], ast.Name) and st.targets[0].id.startswith("_") and \
-                bind_count.get(st.targets[0].id) == 1:
+                bind_count.get(st.targets[0].id) == 1 and st.targets[0].id not in keep:
             try:
                 ast.literal_eval(st.value)
                 consts[st.targets[0].id] = st.value
@@ -398,7 +442,17 @@ def control_flow_normal_form(tree: ast.Module) -> ast.Module:
     continue and nested if/else are the same program in this form."""
     tree = copy.deepcopy(tree)
 
+    def split_ifexp(st):
+        """`x = a if c else b` / `return a if c else b`  ->  if c: x = a else: x = b   (the conditional expression is the whole right-hand side)."""
+        v = getattr(st, "value", None)
+        if isinstance(st, (ast.Assign, ast.Return, ast.AnnAssign)) and isinstance(v, ast.IfExp) and not any(isinstance(x, ast.NamedExpr) for x in ast.walk(v)):
+            a, b = copy.deepcopy(st), copy.deepcopy(st)
+            a.value, b.value = v.body, v.orelse
+            return ast.copy_location(ast.If(test=v.test, body=[a], orelse=[b]), st)
+        return st
+
     def norm_block(stmts: list[ast.stmt]) -> list[ast.stmt]:
+        stmts = [split_ifexp(s_) for s_ in stmts]
         out: list[ast.stmt] = []
         for i, st in enumerate(stmts):
             if isinstance(st, (ast.FunctionDef, ast.AsyncFunctionDef, ast.ClassDef)):
@@ -447,6 +501,18 @@ def control_flow_normal_form(tree: ast.Module) -> ast.Module:
     return tree
 
 
+_FLIP = {ast.In: ast.NotIn, ast.NotIn: ast.In, ast.Eq: ast.NotEq, ast.NotEq: ast.Eq, ast.Is: ast.IsNot, ast.IsNot: ast.Is, ast.Lt: ast.GtE, ast.GtE: ast.Lt,
+         ast.Gt: ast.LtE, ast.LtE: ast.Gt}
+
+
+def _negate(t: ast.expr) -> ast.expr:
+    if isinstance(t, ast.UnaryOp) and isinstance(t.op, ast.Not):
+        return t.operand
+    if isinstance(t, ast.Compare) and len(t.ops) == 1 and type(t.ops[0]) in _FLIP:
+        return ast.Compare(left=t.left, ops=[_FLIP[type(t.ops[0])]()], comparators=t.comparators)
+    return ast.UnaryOp(op=ast.Not(), operand=t)
+
+
 def append_loops_to_comprehensions(tree: ast.Module) -> ast.Module:
     """`xs = []` followed (directly) by `for v in it: [t = e]* ; xs.append(E)`  ->  `xs = [E' for v in it]` with the loop-local temporaries substituted.
     Conditions: the temporaries are plain names assigned once in the body and used nowhere outside the loop, the target variables are not used after the
@@ -478,7 +544,24 @@ def append_loops_to_comprehensions(tree: ast.Module) -> ast.Module:
                 tgt = st.target.id
             nxt = stmts[i + 1] if i + 1 < len(stmts) else None
             if tgt is not None and isinstance(nxt, ast.For) and not nxt.orelse and nxt.body:
-                body = nxt.body
+                body = list(nxt.body)
+                conds: list[ast.expr] = []
+                # filters: `if C: continue` in front, `if C: <append>` / `if C: pass|continue else: <append>` around the append
+                while body and isinstance(body[0], ast.If) and not body[0].orelse and len(body[0].body) == 1 and isinstance(body[0].body[0], ast.Continue) and len(body) > 1:
+                    conds.append(_negate(body[0].test))
+                    body = body[1:]
+                if len(body) == 1 and isinstance(body[0], ast.If):
+                    i0 = body[0]
+                    if not i0.orelse:
+                        conds.append(i0.test)
+                        body = list(i0.body)
+                    elif len(i0.body) == 1 and isinstance(i0.body[0], (ast.Pass, ast.Continue)):
+                        conds.append(_negate(i0.test))
+                        body = list(i0.orelse)
+                if not body:
+                    out.append(st)
+                    i += 1
+                    continue
                 last = body[-1]
                 temps = {}
                 ok = isinstance(last, ast.Expr) and isinstance(last.value, ast.Call) and isinstance(last.value.func, ast.Attribute) and last.value.func.attr == "append" and \
@@ -515,7 +598,11 @@ def append_loops_to_comprehensions(tree: ast.Module) -> ast.Module:
                     for nm, v in temps.items():
                         defs[nm] = _Renamer(dict(defs)).visit(copy.deepcopy(v))
                     elt = _Renamer(defs).visit(elt)
-                    comp = ast.ListComp(elt=elt, generators=[ast.comprehension(target=nxt.target, iter=nxt.iter, ifs=[], is_async=0)])
+                    if conds and any(names_in(c) & set(temps) for c in conds):
+                        out.append(st)
+                        i += 1
+                        continue
+                    comp = ast.ListComp(elt=elt, generators=[ast.comprehension(target=nxt.target, iter=nxt.iter, ifs=conds, is_async=0)])
                     new = copy.deepcopy(st)
                     new.value = comp
                     out.append(ast.copy_location(new, st))
